@@ -239,8 +239,8 @@ theorem call_indep_of_end (d : Decoder) (hd : d ∈ decoders) (hfam : d.family =
 /-- BSC_open is a non-exempt BSD decoder; its tail has the "always" shape with success text `fd: <word 1>`. -/
 example : ∃ d ∈ decoders, d.key = 23225981780450370926 ∧ d.family = 0 ∧ d.key ∉ exempt ∧
     (d.shape.map fun s => subst d.fields s.tail) =
-      some (.cat (.strLit commaSp) (.strOf (.ite (.notE (.endArg 0))
-        (.cat (.strLit [102, 100, 58, 32]) (.strOf (.endArg 1))) errExpr))) := by
+      some (.cat (.strLit commaSp) (.strOf (.ite (.endArg 0) errExpr
+        (.cat (.strLit [102, 100, 58, 32]) (.strOf (.endArg 1)))))) := by
   decide +kernel
 
 example : errText { errno := fun n => if n = 2 then some "ENOENT" else none, signals := fun _ => none,
